@@ -69,7 +69,8 @@ H("derive", src="h_derive.c", props=["C11"], enforce=["derive_session_event"],
   unwind=8, unwindset={"derive_session_event.0": 242, "h_derive.0": 242, "session_table_find.0": 17}, must_reach=["end", "reset", "present", "absent", "other"],
   shards=6, bounded="station counts 0..240 (the property's quantifier range) by complete unwinding; counts above are the C01 known finding")
 H("derive_oob", src="h_derive.c", props=["C01"], enforce=["derive_session_event"], unwind=8,
-  unwindset={"derive_session_event.0": 100}, defines=["OOB_CAP=576"], no_native=False)
+  unwindset={"derive_session_event.0": 100, "h_derive_oob.0": 580}, defines=["OOB_CAP=576"], no_native=False,
+  unwind_props={"derive_session_event.0": ["C01"]})
 
 # ---------------------------------------------------------------- C12 / C14 / C16 tick and mapping timers
 for n, f in [("mt_reset_charge", "mapping_reset_charge"), ("mt_on_charge", "mapping_on_charge"),
@@ -90,14 +91,12 @@ H("send_probe", src="h_emit.c", props=["C06", "C10", "C02", "C18", "C19", "C17"]
 _EMIT_PROPS = ["C06", "C01", "C02", "C19", "C05", "C10"]
 H("parse_emit", src="h_emit.c", props=_EMIT_PROPS + ["C18"], enforce=["parseEmit"], replace=["sendProbeMsg"], safety_props=["C18"],
   unwind=8, unwindset={"parseEmit.0": 40}, defines=["V_MTU_FIXED=576"], unwind_props={"parseEmit.0": ["C06", "C01"]},
-  bounded="frame object of exactly MTU bytes with MTU fixed to 576 (thorough: also 1500); descriptor loop completely unwound for that MTU")
+  bounded="frame object of exactly MTU bytes with MTU fixed to 576 ; descriptor loop completely unwound for that MTU")
 H("parse_emit_strict", src="h_emit.c", props=_EMIT_PROPS, enforce=["parseEmit"],
   unwind=10, unwindset={"parseEmit.0": 10}, defines=["V_MTU_FIXED=576"], defines_quick=["V_STRICT_N=4"], defines_thorough=["V_STRICT_N=8"],
   must_reach=["end", "tx"], timeout_thorough=3000,
   bounded="exact-count / order / per-frame content clause for n = 1..4 descriptors (thorough: 1..8), MTU fixed to 576; the general harness covers every count for the bound clause")
-H("parse_emit_1500", src="h_emit.c", fn="h_parse_emit", props=_EMIT_PROPS, enforce=["parseEmit"],
-  replace=["sendProbeMsg"], unwind=8, unwindset={"parseEmit.0": 106}, defines=["V_MTU_FIXED=1500"], unwind_props={"parseEmit.0": ["C06", "C01"]},
-  thorough_only=True, timeout=3000, bounded="frame object of exactly 1500 bytes; descriptor loop completely unwound")
+# (an MTU-1500 instance of parse_emit - 105 unwound iterations of the replaced callee - ran out of memory at the 12 object bits it needs; not run)
 
 # ---------------------------------------------------------------- lltdBlock.c: observation path (C07 / C19)
 _PQ = ["C07", "C19", "C01", "C02", "C18", "C17", "C05", "C10"]
@@ -219,7 +218,7 @@ PROPS = {
     "C05": {"harnesses": ["parse_frame"]},
     "C08": {"harnesses": ["send_ltr", "parse_qlt", "c08_reassembly"]},
     "C07": {"harnesses": ["parse_probe", "parse_query", "parse_query_mtu60", "parse_query_mtu72", "parse_query_mtu80", "parse_query_mtu93", "parse_query_symmtu"]},
-    "C06": {"harnesses": ["send_probe", "parse_emit", "parse_emit_strict", "parse_emit_1500"]},
+    "C06": {"harnesses": ["send_probe", "parse_emit", "parse_emit_strict"]},
     "C10": {"harnesses": ["send_probe", "parse_emit_strict", "parse_probe", "c10_peer"]},
     "C11": {"harnesses": ["derive"]},
     "C16": {"harnesses": ["tab_find", "tab_add", "tab_remove", "tab_update", "tab_queries", "tab_clear", "tab_create", "tab_nullargs", "tick"]},
